@@ -45,7 +45,8 @@ TARGETS = ['', 'd', 'd/e', 'g', 'dx']
 
 OPTS_QUICK = [
     dict(hashes=('SHA1',), sort=False, force=False, wm=None, fmt=None, profile='default'),
-    dict(hashes=('MD5', 'SHA256'), sort=True, force=False, wm=None, fmt=None, profile='default'),
+    # (MD5 + SHA1 is the UNION of the hash sets of the dup_disjoint / dup_parent_child priors)
+    dict(hashes=('MD5', 'SHA1'), sort=True, force=False, wm=None, fmt=None, profile='default'),
     dict(hashes=('SHA1',), sort=False, force=True, wm=None, fmt=None, profile='default'),
     dict(hashes=('BLAKE2B', 'SHA512'), sort=True, force=True, wm=0, fmt='gz', profile='default'),
     dict(hashes=('SHA1',), sort=False, force=False, wm=0, fmt='bz2', profile='default'),
